@@ -104,6 +104,11 @@ def main():
     mod = importlib.import_module("checks.%s" % pid.lower())
     ctx = Ctx(pid, tier, seed)
     evidence_path = os.path.join(VERIF, "evidence", "%s.json" % pid)
+    if os.path.realpath(os.environ.get("VERIF_REPO", "/repo")) != "/repo":
+        # a run against a scratch worktree (seeded change, reverted fix) must not
+        # overwrite the evidence of the unchanged tree
+        os.makedirs("/var/tmp/verif-alt-evidence", exist_ok=True)
+        evidence_path = "/var/tmp/verif-alt-evidence/%s.json" % pid
     try:
         if not getattr(mod, "NO_BREEZY", False):
             env.boot(rust=getattr(mod, "RUST", ()))
